@@ -533,6 +533,8 @@ func init() {
 			src := d.left() + " " + genExprSrc(r, 3) + " " + d.right()
 			cs = append(cs, h.Case{Stream: "lex", Cmd: lexCmd(d, src), NonTrivial: true})
 		}
+		// the parser model against the real parser on expression-heavy sources (grouping, lines)
+		cs = append(cs, genParseTree(r, "parsetree", n/2, "expr")...)
 		return cs
 	}})
 }
